@@ -182,6 +182,40 @@ def rule_rs_layout(rep: Report, fi: FuncInfo) -> None:
     rep.expect(ok, "CHECK-LAYOUT", fi, f"layout test: {unparse(ifs[0].test)[:140] if ifs else '?'}", "layout decided by comparing the index tensor with arange (a live test)", "layout test changed")
 
 
+def systematic_matrix_evaluated(fi: FuncInfo):
+    """create_systematic_generator_matrix(P, information_set) evaluated (own arithmetic, module helpers inlined): column
+    information_set[i] must be the i-th unit vector and the j-th smallest remaining position must hold column j of P - the
+    layout the systematic encoder's forward() writes messages and parities to."""
+    from ..constfold import PySeq, Unfoldable
+    from ..frag import FragRaise, FragReturn, run_fragment
+
+    funcs = {nm: f.node for nm, f in fi.module.functions.items() if nm != fi.name}
+    k, r = 3, 4
+    n = k + r
+    P = [[10 * (i + 1) + j for j in range(r)] for i in range(k)]
+    sets = ["left", "right", PySeq([0, 2, 5]), PySeq([6, 1, 3]), PySeq([5, 4, 0]), [2, 6, 1]]
+    for info in sets:
+        try:
+            run_fragment(fi.body, {fi.params[0]: [list(row) for row in P], fi.params[1]: info}, {}, max_steps=200000, materialise=True, funcs=funcs)
+            return None, "no value returned"
+        except FragReturn as ret:
+            G = ret.value
+        except (Unfoldable, FragRaise, TypeError, IndexError, ValueError) as exc:
+            return None, f"information_set={info!r}: {exc}"
+        idx = list(range(k)) if info == "left" else (list(range(n - k, n)) if info == "right" else list(info))
+        par = [j for j in range(n) if j not in idx]
+        want = [[0] * n for _ in range(k)]
+        for i in range(k):
+            want[i][idx[i]] = 1
+            for j, pj in enumerate(par):
+                want[i][pj] = P[i][j]
+        if not (isinstance(G, list) and len(G) == k and all(isinstance(row, list) and len(row) == n for row in G)):
+            return None, f"result is not a {k} x {n} matrix"
+        if [[float(x) for x in row] for row in G] != [[float(x) for x in row] for row in want]:
+            return VIOLATION, f"information_set = {list(info) if not isinstance(info, str) else info!r}: the generator has rows {[[int(x) for x in row] for row in G][:2]}...; message bit i must sit at position information_set[i] and the parities at the remaining positions in ascending order, i.e. {want[:2]}... (the encoder writes its codewords in that layout, so G and the encoder describe different codes for this information set)"
+    return OK, f"identity at information_set[i], P on the ascending remaining positions for {len(sets)} information sets (left, right, sorted and unsorted index lists)"
+
+
 def rule_systematic_matrix(repo: Repo, rep: Report) -> int:
     fi = repo.func(SYS, "create_systematic_generator_matrix")
     body = {unparse(s.targets[0]): s for s in stmts_of(fi.body) if isinstance(s, ast.Assign)}
@@ -189,7 +223,16 @@ def rule_systematic_matrix(repo: Repo, rep: Report) -> int:
     ok_c = call is not None and unparse(call.value) == "get_information_and_parity_sets(k, n, information_set)"
     ok_i = "generator_matrix[:, information_indices]" in body and unparse(body["generator_matrix[:, information_indices]"].value).startswith("torch.eye(k")
     ok_p = "generator_matrix[:, parity_indices]" in body and unparse(body["generator_matrix[:, parity_indices]"].value) == "parity_submatrix"
-    rep.expect(ok_c and ok_i and ok_p, "SYSTEMATIC", fi, "G[:, info] = I_k; G[:, parity] = P with (info, parity) from one get_information_and_parity_sets(k, n, information_set)", "identity on the information set, P on the complementary parity set", "the systematic generator is not I on the information set and P on the parity set of one index computation", node=fi.node)
+    if not (ok_c and ok_i and ok_p):
+        # another spelling: the function (helpers inlined) is evaluated for a parity submatrix with distinct entries and
+        # left / right / sorted / unsorted information sets
+        est, edetail = systematic_matrix_evaluated(fi)
+        if est is None:
+            rep.undecided("SYSTEMATIC", fi, "G[:, info] = I_k; G[:, parity] = P with (info, parity) from one get_information_and_parity_sets(k, n, information_set)", f"code shape not recognised and not evaluable ({edetail})", node=fi.node)
+        else:
+            rep.add("SYSTEMATIC", fi, "create_systematic_generator_matrix evaluated for left / right / sorted / unsorted information sets", est, edetail, node=fi.node)
+    else:
+        rep.ok("SYSTEMATIC", fi, "G[:, info] = I_k; G[:, parity] = P with (info, parity) from one get_information_and_parity_sets(k, n, information_set)", "identity on the information set, P on the complementary parity set", node=fi.node)
     # the encoder uses the same helper with the same arguments
     ci = repo.cls(SYS, "SystematicLinearBlockCodeEncoder")
     init = repo.method(ci, "__init__")
